@@ -15,7 +15,7 @@ PROPS = {
             "HashSet/HashMap results (record id unions, category counts) are compared sorted by id",
             "'descends from' is read through the cached all_parents of the members (C01 ties that cache to the transitive closure)",
         ],
-        "partial": "C13_ic states the result as the (count, total) pairs passed to C03's icCalc plus the definition of icValue for every Num instance; the real-number identity -ln(|union|/N) >= 0 is C03's theorem, not restated here. The panic behaviour for sets with a non-member is modelled and compared (short-circuit of child_nodes included) but only its absence under `Resolves` is a theorem.",
+        "partial": "C13_ic states the result as the (count, total) pairs passed to C03's icCalc plus the definition of icValue for every Num instance; the real-number identity -ln(|union|/N) >= 0 is C03's theorem, not restated here. For a set with a member that is not a term the panic of every whole-set operation is a theorem (C13_panic_without_member); for child_nodes (whose inner `all` short-circuits) it is modelled and compared only.",
     },
     "C18": {
         "rule": "pairs (old, new) of ontologies of 3..35 terms loaded through the binary format (v3, 1/8 v2, the two sides independently) with obsolete flags, replacements (resolving / not resolving / none) and gene/omim/orpha records; the case index cycles through 17 edit kinds: none, rename_term, add_parent (kept acyclic), remove_parent, flip_obsolete, change_replacement, add_link, remove_link, add_record, remove_record, rename_record (gene or disease), add_term, remove_term (leaf), version, several (2-4 random edits), many (5-15), dangling_parent (malformed: a parent id that is not a term; changed_hpo_terms must panic on both sides); per pair: compare old new, compare new old (swap), compare old old (self), the binary round trip rtbytes old -> slot 2 with `same` and compare old rt / compare rt new, and the harness oracle (`oracle compare`: all set differences and deltas recomputed from per-item accessors of the two ontologies, duplicates and Some(empty) rejected, swap checked); every accessor of Comparison (incl. Display), HpoTermDelta and AnnotationDelta is printed, lists sorted by id; distinct = distinct op lists; non-trivial = at least one edit was applied",
